@@ -66,6 +66,7 @@ TRANSIENT_4XX_ERROR_CODES = frozenset({
     "BadDigest",
     "IncompleteBody",
     "XAmzContentSHA256Mismatch",
+    "XAmzContentChecksumMismatch",
     "KMS.ThrottlingException",
 })
 
